@@ -100,3 +100,40 @@ def names_in(report, sections, rx=r"\b([fg]_\d+)\b"):
 
 def chunks(lst, n):
     return [lst[i:i + n] for i in range(0, len(lst), n)]
+
+
+# ------------------------------------------------------------------ node binaries shared by C01-C04, C14, C20, C35, C40, C43
+def node_binary_specs(quick):
+    """JSON descriptions of the binaries that serve as nodes: packs of units x compiler x DWARF version,
+    plus the hand-written seed programs (C and C++)."""
+    from . import seeds
+    specs = all_specs(quick)
+    out = []
+    packs = chunks(specs, 40)
+    cfgs = [("gcc", None), ("clang", None)] if quick else [("gcc", None), ("gcc", 4), ("gcc", 5), ("clang", None), ("clang", 4), ("clang", 5)]
+    for pi, p in enumerate(packs):
+        for cc, dw in cfgs:
+            if quick and cc == "clang" and pi % 3:
+                continue
+            out.append({"pack": p, "cc": cc, "dwarf": dw, "id": "pack%d-%s-dw%s" % (pi, cc, dw or "def")})
+    for n in seeds.all_names():
+        for cc, dw in cfgs:
+            if n == "symbols" and cc == "clang":
+                continue
+            out.append({"seed": n, "cc": cc, "dwarf": dw, "id": "seed-%s-%s-dw%s" % (n, cc, dw or "def")})
+    for n in ("basic", "symbols"):
+        out.append({"seed": n, "cc": "gcc", "dwarf": None, "nodebug": True, "id": "seed-%s-nodebug" % n})
+    return out
+
+
+def node_binary(b):
+    from . import seeds
+    fl = ["-g"] + (["-gdwarf-%d" % b["dwarf"]] if b.get("dwarf") else [])
+    if "seed" in b:
+        return seeds.build(b["seed"], cc=b["cc"], dwarf=b.get("dwarf"), g=not b.get("nodebug"))
+    return build_nodes(b["pack"], cc=b["cc"], flags=fl)[0]
+
+
+def run(ctx, tool, args, variant="plain", stdin=None, timeout=60, fast=True):
+    rc, out, err = toolrun.run_tool(ctx, variant, tool, list(args), timeout=timeout, stdin=stdin, fast=fast)
+    return rc, out, err
